@@ -382,7 +382,7 @@ def step (c : Ctx) (l : Lx) : St → Step
     if n.1 == 0x5C then
       let p := peek c n.2
       .cont (if p.1 == 0x2F then (next c p.2).2 else p.2) .regexBody
-    else if n.1 == 0x2F then emitTo c n.2 tRegex .token
+    else if n.1 == 0x2F then emitTo c n.2 tRegex .binopSp   -- (commit 0911ce3: an operator may follow a regex)
     else if n.1 == eof then .done (errorf n.2)
     else .cont n.2 .regexBody
   | .commentStart =>
